@@ -258,6 +258,40 @@ func report(p *Program, results []*Result, prop, tier, verif string, loadMs int6
 			}
 		}
 	}
+	// reportRefuted: replay file + replay of the model against the real code (DESIGN §3.3) + VIOLATION line
+	reportRefuted := func(r *Result, name, why string) {
+		path := writeReplay(r, why)
+		// replay of the model against the real code (DESIGN §3.3)
+		rst, rtext := "not-replayable", ""
+		concurrent := false
+		for _, tnote := range r.Trusted {
+			// a mutex or sync.Once in otherwise sequential code does not make the replay meaningless; atomics
+			// (rely/guarantee: other threads act between the steps) and spawned goroutines do
+			if strings.Contains(tnote, "sync/atomic") || strings.Contains(tnote, "goroutine") || strings.Contains(tnote, "go statement") {
+				concurrent = true
+			}
+		}
+		if concurrent {
+			rtext = "replay not attempted: the obligation is about concurrent code (its result on one real schedule would prove nothing)"
+		} else if hh := harnessOf[name]; hh != nil && r.Query != "" {
+			if replayTried < maxReplays {
+				replayTried++
+				rst, rtext = Replay(p, hh, r.Witness, r.Query, p.Repo, verif, replayDir)
+			} else {
+				rtext = fmt.Sprintf("replay not attempted: %d violations of this run were already replayed (cap)", maxReplays)
+			}
+		}
+		if f, err := os.OpenFile(path, os.O_APPEND|os.O_WRONLY, 0o644); err == nil {
+			fmt.Fprintf(f, "\n---- replay against the real code: %s ----\n%s\n", rst, rtext)
+			f.Close()
+		}
+		if rst == "reproduced" {
+			fmt.Printf("VIOLATION property=%s replay=%s obligation=%s failing-input-replayed-on-real-code\n", prop, path, name)
+			replayed++
+		} else {
+			fmt.Printf("VIOLATION property=%s replay=%s obligation=%s no-failing-input-found\n", prop, path, name)
+		}
+	}
 	for _, name := range claimed {
 		r := byName[name]
 		if r == nil {
@@ -279,35 +313,7 @@ func report(p *Program, results []*Result, prop, tier, verif string, loadMs int6
 				knownHit = append(knownHit, name)
 				continue
 			}
-			path := writeReplay(r, "the solver found a model of the negated obligation (model below)")
-			// replay of the model against the real code (DESIGN §3.3)
-			rst, rtext := "not-replayable", ""
-			concurrent := false
-			for _, tnote := range r.Trusted {
-				if strings.Contains(tnote, "sync") || strings.Contains(tnote, "atomic") || strings.Contains(tnote, "goroutine") || strings.Contains(tnote, "go statement") {
-					concurrent = true
-				}
-			}
-			if concurrent {
-				rtext = "replay not attempted: the obligation is about concurrent code (its result on one real schedule would prove nothing)"
-			} else if hh := harnessOf[name]; hh != nil && r.Query != "" {
-				if replayTried < maxReplays {
-					replayTried++
-					rst, rtext = Replay(p, hh, r.Witness, r.Query, p.Repo, verif, replayDir)
-				} else {
-					rtext = fmt.Sprintf("replay not attempted: %d violations of this run were already replayed (cap)", maxReplays)
-				}
-			}
-			if f, err := os.OpenFile(path, os.O_APPEND|os.O_WRONLY, 0o644); err == nil {
-				fmt.Fprintf(f, "\n---- replay against the real code: %s ----\n%s\n", rst, rtext)
-				f.Close()
-			}
-			if rst == "reproduced" {
-				fmt.Printf("VIOLATION property=%s replay=%s obligation=%s failing-input-replayed-on-real-code\n", prop, path, name)
-				replayed++
-			} else {
-				fmt.Printf("VIOLATION property=%s replay=%s obligation=%s no-failing-input-found\n", prop, path, name)
-			}
+			reportRefuted(r, name, "the solver found a model of the negated obligation (model below)")
 			violations++
 		case "unknown":
 			path := writeReplay(r, "obligation was discharged on the unchanged tree and no solver decides it now")
@@ -339,8 +345,7 @@ func report(p *Program, results []*Result, prop, tier, verif string, loadMs int6
 				knownHit = append(knownHit, name)
 				continue
 			}
-			path := writeReplay(r, "bounded lemma: the solver found a model of the negated obligation (model below)")
-			fmt.Printf("VIOLATION property=%s replay=%s obligation=%s no-failing-input-found\n", prop, path, name)
+			reportRefuted(r, name, "bounded lemma: the solver found a model of the negated obligation (model below)")
 			violations++
 		case "unknown":
 			path := writeReplay(r, "bounded lemma was discharged on the unchanged tree and no solver decides it now")
